@@ -5,12 +5,26 @@ package caldav
 
 import (
 	"fmt"
+	"io"
 	"time"
 
 	"github.com/emersion/go-ical"
 	"github.com/emersion/go-webdav"
 	"github.com/emersion/go-webdav/internal"
 )
+
+// decodeCalendar decodes a single iCalendar object. The go-ical decoder panics
+// on a content line which ends right after a parameter value or which has
+// anything but a separator behind a quoted parameter value: that is malformed
+// input like any other, and is reported as an error.
+func decodeCalendar(r io.Reader) (cal *ical.Calendar, err error) {
+	defer func() {
+		if v := recover(); v != nil {
+			cal, err = nil, fmt.Errorf("caldav: malformed iCalendar: %v", v)
+		}
+	}()
+	return ical.NewDecoder(r).Decode()
+}
 
 var CapabilityCalendar = webdav.Capability("calendar-access")
 
